@@ -205,8 +205,7 @@ Fixpoint sem_prun (n : nat) (p : program) (c : sconf) : sfinal :=
 Definition ok_at (p : program) (c : sconf) : bool :=
   match program_function p (sc_fi c) with
   | None => false
-  | Some f => match floc_apply f (sc_loc c) with Ok _ => true | _ => false end &&     (* the location exists *)
-              det_at f (sc_loc c) (sc_st c) && negb (top_at f (sc_loc c) (sc_st c))
+  | Some f => det_at f (sc_loc c) (sc_st c) && negb (top_at f (sc_loc c) (sc_st c))
   end.
 Fixpoint run_ok (n : nat) (p : program) (c : sconf) : bool :=
   match n with
